@@ -421,9 +421,9 @@ Qed.
 
 (* The monitor accepts the model on every schedule, every universe of groups, every kind. *)
 Theorem monitor_accepts_model kind groups evs :
-  holds (Case kind groups false (predict evs)) = true.
+  holds (Case kind groups false (predict evs) []) = true.
 Proof.
-  unfold holds. cbn [c_steps c_groups]. unfold predict. rewrite predict_events.
+  unfold holds. cbn [c_steps c_groups c_storm forallb]. rewrite andb_true_r. unfold predict. rewrite predict_events.
   eapply mon_run_ok; [apply R_init | apply tokens_ok_b_spec | apply asks_ok_b_spec].
 Qed.
 
@@ -444,7 +444,7 @@ Proof.
   specialize (IH w1). unfold predict_from in IH. rewrite Er in IH. exact IH.
 Qed.
 
-Theorem judge_model_zero kind groups evs : judge (Case kind groups false (predict evs)) = 0.
+Theorem judge_model_zero kind groups evs : judge (Case kind groups false (predict evs) []) = 0.
 Proof.
   unfold judge. cbn [c_hung c_groups c_steps]. unfold predict at 1.
   rewrite model_agrees_with_itself, monitor_accepts_model. reflexivity.
